@@ -62,13 +62,14 @@ def b_new(I, T, ty, name, via='ctor'):
     return I.call('builder::GenericPurlBuilder::<%s>::new::<&str>' % tytext(T), [ty, RStr(name)])
 
 
+PARSED_LONG = '/github.com/some-org/some-repo/n@1.0.0-beta.1+build.20240101?download_url=https://example.org/a.tgz%3Fsig%3D0123456789abcdef#src/main/java/com/example'
 PARSED_BASE = '/ns/n@1?a=1&c=3#s'
 PARSED_STEPS = [('with_namespace', 'ns'), ('with_version', '1'), ('with_qualifier', 'a', '1'), ('with_qualifier', 'c', '3'), ('with_subpath', 's')]
 
 
-def b_parsed(I, T, type_bytes):
+def b_parsed(I, T, type_bytes, long_=False):
     """a builder obtained from a parsed PURL (`pkg:<type>/ns/n@1?a=1&c=3#s`).into_builder(): the entry point of edit-and-rebuild"""
-    r = from_str(I, T, list(b'pkg:') + list(type_bytes) + list(PARSED_BASE.encode()))
+    r = from_str(I, T, list(b'pkg:') + list(type_bytes) + list((PARSED_LONG if long_ else PARSED_BASE).encode()))
     if r.variant != 'Ok':
         raise Unsupported('the base PURL of a parsed-then-edited script does not parse')
     return I.call('GenericPurl::<%s>::into_builder' % tytext(T), [r.fields[0]])
@@ -94,6 +95,19 @@ def b_call(I, T, b, method, *args):
     if method in ('set_namespace', 'set_name', 'set_version', 'set_subpath'):
         # direct edit of the public `parts`
         b.fields[1].fields[{'set_namespace': 0, 'set_name': 1, 'set_version': 2, 'set_subpath': 4}[method]] = StringBuf(args[0])
+        return b
+    if method in ('truncate_namespace', 'truncate_version', 'truncate_subpath'):
+        # shrink a field of the public `parts` in place (the buffer keeps its allocation)
+        fld = b.fields[1].fields[{'truncate_namespace': 0, 'truncate_version': 2, 'truncate_subpath': 4}[method]]
+        n = args[0] if isinstance(args[0], int) else int(bytes(args[0]).decode())
+        del fld.b[n:]
+        return b
+    if method == 'truncate_qualifier':
+        # shrink a qualifier value in place through Qualifiers::get_mut
+        n = args[1] if isinstance(args[1], int) else int(bytes(args[1]).decode())
+        r = I.call('Qualifiers::get_mut::<&str>', [Ref(b.fields[1].fields, 3), RStr(args[0])])
+        if r.variant == 'Some':
+            del r.fields[0].get().b[n:]
         return b
     if method == 'typed_model':
         # a user-written typed qualifier (KnownQualifierKey with the declared key of the given tag)
@@ -128,7 +142,7 @@ def gen_build(L, T, type_bytes, name, steps, via='ctor'):
             L.expect_native(req, {'err': nm})
             return None, 'rejected:' + nm
         return r.fields[0], 'built'
-    b = b_parsed(I, T, type_bytes) if via == 'parsed' else b_new(I, T, mk_type(I, T, type_bytes), name, via)
+    b = b_parsed(I, T, type_bytes, via == 'parsed_long') if via in ('parsed', 'parsed_long') else b_new(I, T, mk_type(I, T, type_bytes), name, via)
     for m, *args in steps:
         b = b_call(I, T, b, m, *args)
         if m == 'with_qualifier':
